@@ -149,24 +149,31 @@ fn constrain_cases(
                 constr.branch("match arm", case.pos);
                 let cond_env = generate(cond, &env.is_def_mode(true), ctx, constr)?;
 
+                // names in an arm are those of the scope of that arm, not of the enclosing one
+                let (global, outer) = (constr.var_mapping.clone(), &env.var_mapping);
                 if let Node::ExpressionType { expr: ref cond, .. } = cond.node {
                     if let Some(expr) = &expr {
-                        constr.add(
-                            "arm body",
-                            &Expected::from(expr),
-                            &Expected::from(cond),
-                            env,
-                        );
+                        let expr_exp = Expected::from(expr).map_exp(outer, &global);
+                        let cond_exp = Expected::from(cond).map_exp(&cond_env.var_mapping, &global);
+                        let constraint = Constraint::new("arm body", &expr_exp, &cond_exp);
+                        constr.add_constr_map(&constraint, outer, true);
                     }
                 }
 
                 let body_env = generate(body, &cond_env.is_def_mode(is_define_mode), ctx, constr)?;
+                let global = constr.var_mapping.clone();
+                let exp_body = Expected::from(body).map_exp(&body_env.var_mapping, &global);
+                let exp_match = Expected::from(ast).map_exp(outer, &global);
                 envs.push(body_env);
-                let exp_body = Expected::from(body);
-                constr.add("arm body", &exp_body, &Expected::from(ast), env);
+                constr.add_constr_map(
+                    &Constraint::new("arm body", &exp_body, &exp_match),
+                    outer,
+                    true,
+                );
 
                 if env.is_expr {
-                    constr.add("arm body and outer", &Expected::from(ast), &exp_body, env);
+                    let constraint = Constraint::new("arm body and outer", &exp_match, &exp_body);
+                    constr.add_constr_map(&constraint, outer, true);
                 }
             }
             _ => return Err(vec![TypeErr::new(case.pos, "Expected case")]),
